@@ -7,5 +7,5 @@ cp -f /repo/Cargo.lock harness/Cargo.lock 2>/dev/null || true
 (cd harness && cargo build --release --offline 2>&1 | tail -3)
 for t in tools/tiea/*.py; do [ -f "$t" ] && python3 tools/rs2v.py "$(basename "$t" .py)" /repo/src || true; done
 tools/mkproject.sh
-(cd coq && timeout 7000 make -j16 2>&1 | grep -v "^COQ\(C\|DEP\)" | tail -30; test "${PIPESTATUS:-0}" = 0 || true)
+(cd coq && timeout 7000 make -k -j16 2>&1 | grep -v "^COQ\(C\|DEP\)" | tail -30; test "${PIPESTATUS:-0}" = 0 || true)
 echo "setup done"
